@@ -9,6 +9,7 @@ import Dassh.Model.Peaks
 import Dassh.Model.Pressure
 import Dassh.Model.Power
 import Dassh.Model.Orifice
+import Dassh.Model.Accept
 
 open Dassh.Model
 
@@ -103,6 +104,34 @@ def handle (line : String) : String :=
       | Orifice.Outcome.ok g => "ok " ++ sizes g
       | Orifice.Outcome.notConverged g => "error " ++ sizes g
     | _, _, _ => "bad-op"
+  | "accept" :: rest =>
+    -- accept length asmPitch flowGap(0/1) bypass | nRing pitch diam clad wire lowFid(0/1) ducts... | ... || bc bc ...
+    -- (assemblies separated by "|", boundary conditions after "||"; a missing bc is the token "none")
+    let toks := rest
+    let bcPart := (toks.dropWhile (· ≠ "||")).drop 1
+    let front := toks.takeWhile (· ≠ "||")
+    let rec groups (ws : List String) (cur : List String) (acc : List (List String)) : List (List String) :=
+      match ws with
+      | [] => (cur.reverse :: acc).reverse
+      | "|" :: t => groups t [] (cur.reverse :: acc)
+      | w :: t => groups t (w :: cur) acc
+    match groups front [] [] with
+    | coreW :: asmWs =>
+      let fl (w : String) : Float := match w.toNat? with | some n => Float.ofBits n.toUInt64 | none => 0.0
+      match coreW with
+      | [l, p, fg, bf] =>
+        let core : Accept.CoreIn Float := ⟨fl l, fl p, fg == "1", fl bf⟩
+        let asms : List (Accept.Asm Float) := asmWs.filterMap fun ws =>
+          match ws with
+          | nr :: pp :: dd :: cl :: wi :: lf :: ducts =>
+            some ⟨nr.toNat?.getD 0, fl pp, fl dd, fl cl, fl wi, ducts.map fl, lf == "1"⟩
+          | _ => none
+        let bcs : List (Option Float) := bcPart.map fun w => if w == "none" then none else some (fl w)
+        match Accept.accepts (Float.sqrt 3.0) core asms bcs with
+        | .ok () => "accepted"
+        | .error e => "rejected " ++ toString (repr e)
+      | _ => "bad-op"
+    | [] => "bad-op"
   | _ => "bad-op"
 
 partial def loop (h : IO.FS.Stream) : IO Unit := do
